@@ -30,7 +30,7 @@ def main():
     pats = sorted(glob.glob(os.path.join(VERIF, "selftest", "mutants", "*.diff"))) + \
         sorted(glob.glob(os.path.join(VERIF, "selftest", "preserving", "*.diff"))) + \
         sorted(glob.glob(os.path.join(VERIF, "seeded", "*", "patch.diff")))
-    todo = [p for p in pats if not a.only or a.only in p]
+    todo = [p for p in pats if not a.only or any(o in p for o in a.only.split("|"))]
     import threading
     from concurrent.futures import ThreadPoolExecutor
     gitlock = threading.Lock()
